@@ -323,7 +323,8 @@ def install(it):
     reg("property", lambda fget=None, fset=None, fdel=None, doc=None: PropertyVal(fget, fset, fdel))
     reg("staticmethod", lambda f: StaticMethodVal(f))
     reg("classmethod", lambda f: ClassMethodVal(f))
-    reg("slice", lambda *a: SliceVal(*( (None, a[0], None) if len(a) == 1 else (a + (None,))[:3])))
+    B["slice"] = BuiltinClass("slice", lambda *a: SliceVal(*((None, a[0], None) if len(a) == 1 else (a + (None,))[:3])),
+                              lambda x: isinstance(x, SliceVal))
     reg("vars", lambda o: o.fields)
     reg("super", lambda *a: (_ for _ in ()).throw(Unsupported("super(args)")))
     reg("open", lambda *a, **k: (_ for _ in ()).throw(Unsupported("open()")))
